@@ -316,6 +316,20 @@ theorem accessCell_keeps (f : Nat) (ds : DblSem) (h : Heap) (c : Cell) (k : Nat)
 theorem setPay_next (h : Heap) (b : Nat) (p : Pay) : (setPay h b p).next = h.next := by
   unfold setPay; split <;> rfl
 
+theorem srcCopies_keeps (rd : Nat → Cell) : ∀ (l : List Src) (h : Heap), Bounded h → ∀ x, x < h.next →
+    (∀ s ∈ l, ∀ w ∈ s.vars, cellCnt (rd w) x = 0) → stored h.heap h.next x = 0 →
+    Keeps h (srcCopies rd h l).1 x ∧ cntCells (srcCopies rd h l).2 x = 0 := by
+  intro l
+  induction l with
+  | nil => intro h hb x _ _ hs; exact ⟨Keeps.refl hb hs, rfl⟩
+  | cons s t ih =>
+    intro h hb x hx hsv hs
+    obtain ⟨k1, c1⟩ := srcCopy_keeps rd h hb s x hx (hsv s (by simp)) hs
+    obtain ⟨k2, c2⟩ := ih (srcCopy rd h s).1 k1.bnd x (by have := k1.mono; omega) (fun s' hs' => hsv s' (by simp [hs'])) k1.unst
+    have hcs : srcCopies rd h (s :: t) = ((srcCopies rd (srcCopy rd h s).1 t).1, (srcCopy rd h s).2 :: (srcCopies rd (srcCopy rd h s).1 t).2) := rfl
+    rw [hcs]
+    exact ⟨k1.trans k2, by simp only [cntCells_cons]; omega⟩
+
 theorem setBoxedCell_keeps (f : Nat) (h : Heap) (c : Cell) (p : Pay) (h' : Heap) (c' : Cell) (x : Nat)
     (r : setBoxedCell f h c p = some (h', c')) (hb : Bounded h) (hx : x < h.next) (hc : cellCnt c x = 0)
     (hp : cntCells p.cells x = 0) (hs : stored h.heap h.next x = 0) : Keeps h h' x ∧ cellCnt c' x = 0 := by
@@ -456,8 +470,44 @@ theorem leafOp_keeps (f : Nat) (ds : DblSem) (rd : Nat → Cell) (h : Heap) (c :
       | uint n => exact scalar rfl
       | int64 n => exact scalar rfl
       | uint64 n => exact scalar rfl
-    | list l => exact absurd hsup (by simp [LeafSupS])
-    | array l => exact absurd hsup (by simp [LeafSupS])
+    | list l =>
+      simp only [leafOp, tmpPay] at r
+      obtain ⟨k1, c1⟩ := srcCopies_keeps rd l h hb x hx
+        (fun s hs w hw => hsrc w (by simp only [LeafS.vars, ValS.vars, List.mem_flatMap]; exact ⟨s, hs, hw⟩)) hs
+      cases hsb : setBoxedCell f (srcCopies rd h l).1 c (.list (srcCopies rd h l).2) with
+      | none => rw [hsb] at r; cases r
+      | some q =>
+        obtain ⟨s2, c2⟩ := q
+        rw [hsb] at r
+        simp only at r
+        obtain ⟨k2, cc2⟩ := setBoxedCell_keeps f _ c _ s2 c2 x hsb k1.bnd (by have := k1.mono; omega) hc c1 k1.unst
+        cases hr : releaseAll f s2 (Pay.list (srcCopies rd h l).2).cells with
+        | none => rw [hr] at r; cases r
+        | some h3 =>
+          rw [hr] at r
+          simp only [Option.map, Option.some.injEq, Prod.mk.injEq] at r
+          obtain ⟨e1, e2⟩ := r
+          subst e1 e2
+          exact ⟨(k1.trans k2).trans (releaseAll_keeps f _ s2 h3 x hr k2.bnd c1 k2.unst), cc2⟩
+    | array l =>
+      simp only [leafOp, tmpPay] at r
+      obtain ⟨k1, c1⟩ := srcCopies_keeps rd l h hb x hx
+        (fun s hs w hw => hsrc w (by simp only [LeafS.vars, ValS.vars, List.mem_flatMap]; exact ⟨s, hs, hw⟩)) hs
+      cases hsb : setBoxedCell f (srcCopies rd h l).1 c (.array (srcCopies rd h l).2) with
+      | none => rw [hsb] at r; cases r
+      | some q =>
+        obtain ⟨s2, c2⟩ := q
+        rw [hsb] at r
+        simp only at r
+        obtain ⟨k2, cc2⟩ := setBoxedCell_keeps f _ c _ s2 c2 x hsb k1.bnd (by have := k1.mono; omega) hc c1 k1.unst
+        cases hr : releaseAll f s2 (Pay.array (srcCopies rd h l).2).cells with
+        | none => rw [hr] at r; cases r
+        | some h3 =>
+          rw [hr] at r
+          simp only [Option.map, Option.some.injEq, Prod.mk.injEq] at r
+          obtain ⟨e1, e2⟩ := r
+          subst e1 e2
+          exact ⟨(k1.trans k2).trans (releaseAll_keeps f _ s2 h3 x hr k2.bnd c1 k2.unst), cc2⟩
     | map m => exact absurd hsup (by simp [LeafSupS])
   | clear =>
     simp only [leafOp] at r
